@@ -7,6 +7,18 @@ import lib
 import pyref
 
 ALLOWED_AXIOMS = frozenset()
+MANIFEST = dict(
+   category="proof",
+   text="Coq theorems C11_fasthash64/32/murmur3: the branch-for-branch transcription of hashes.py (over constants re-read "
+        "from the source on every run) equals an independently written reference of FastHash and MurmurHash3_x86_32 for "
+        "every byte string and every in-range seed; tied to the code by evaluating transcription and reference inside Coq "
+        "on the same inputs as the Numba functions (all lengths 0..257, boundary seeds) plus a pure-Python third reference "
+        "and a second interpreter.",
+   design_ref="DESIGN.md section 6, C11",
+   note="Trusted: Coq kernel + vm_compute; translator for the constants; the hand transcription Hashes.v (validated by the "
+        "correspondence run); my reading of the published algorithms (HashSpec.v, cross-checked with the repo's 22 C++ vectors); "
+        "Numba's uint wrap semantics. Theorems closed under the global context (no axioms).",
+   technique="Coq proof (transcription = reference spec, all inputs) + vm_compute correspondence against the Numba code")
 SEEDS = [0, 1, 2**32 - 1, 2**32, 2**63, 2**64 - 1]
 BIAS = [0x00, 0x7F, 0x80, 0xFF]
 
